@@ -94,6 +94,9 @@ pub(super) async fn run_pty_task(handle: &TaskHandle, ctx: TaskRunContext) {
             return;
         }
     };
+    // The child holds its own copy of the slave side. While this process keeps one too, the master
+    // never reports end of output after the child has exited, and the task never ends.
+    drop(pair.slave);
 
     let killer = Arc::new(StdMutex::new(child.clone_killer()));
 
